@@ -640,3 +640,111 @@ def distance_exits(ctx, prog):
         ok = ok and srcs == ["core::slice::<impl [T]>::iter(param:other)"]
         why += "; walks %s" % srcs
     ctx.ob("SA-FORMULA", "edit_distance_internal: single result len(self)+len(other)-2*zeros(v), v from all-ones over every symbol of `other`", ok, why, f.loc())
+
+
+def _comm(e, op, pred_a, pred_b):
+    """e is the commutative binary operation/call `op` over two operands satisfying pred_a / pred_b in either order"""
+    e = strip(e)
+    ops = None
+    if e[0] == "bin" and e[1] == op:
+        ops = (e[2], e[3])
+    elif e[0] == "call" and e[1].endswith("::" + op) and len(e[2]) == 2:
+        ops = (e[2][0], e[2][1])
+    if ops is None:
+        return False
+    return (pred_a(ops[0]) and pred_b(ops[1])) or (pred_a(ops[1]) and pred_b(ops[0]))
+
+
+def recurrence_steps(ctx, prog):
+    """the two bit-parallel loops as STEP formulas (what one iteration does to the carried word), not as what they compute (C08/C09):
+    edit distance: v' = (v + (E & v)) | (v - (E & v)) in wrapping arithmetic, E = mask of this symbol of `other`;
+    substring scan: d starts as mask[other[l]], d' = (d << 1) & mask[other[l]] read AFTER l was advanced by exactly 1, the window end is
+    l + (MIN_LCS - 1), the scan starts at len(other) - MIN_LCS and skips back by MIN_LCS."""
+    import re
+    R = "SA-FORMULA"
+    # ---- edit distance
+    f = prog.fn("BlockHashPositionArrayImplInternal::edit_distance_internal")
+    ctx.visit(f)
+    sy = Sym(f)
+    ok = False
+    why = "no carried u64 word"
+    for l, ds in f.defs.items():
+        if f.locals[l]["ty"] != "u64" or len(ds) != 2:
+            continue
+        upd = [strip(sy.rvalue(x)) for (b, _i, k, x) in ds if k == "rv" and const_value(strip(sy.rvalue(x))) is None and canon(strip(sy.rvalue(x))) != "Not(0)"]
+        if len(upd) != 1:
+            continue
+        u = upd[0]
+
+        def is_v(x, l=l):
+            x = strip(x)
+            return x[0] == "local" and x[1] == l
+
+        def is_e(x):
+            t = re.sub(r"::<[^()\[\]]*>\(", "(", canon(strip(x)))
+            return re.match(r"^internals::compare::position_array::BlockHashPositionArrayData::representation\(param:self\)\[\(.*Iterator>::next\(local:\w+\) as Some\)\.0 as usize\)\]$", t) is not None
+
+        def is_p(x):
+            return _comm(x, "BitAnd", is_e, is_v)
+
+        def is_add(x):
+            return _comm(x, "wrapping_add", is_v, is_p)
+
+        def is_sub(x):
+            x = strip(x)
+            return x[0] == "call" and x[1].endswith("::wrapping_sub") and len(x[2]) == 2 and is_v(x[2][0]) and is_p(x[2][1])
+        def is_clear(x):
+            # v - (E & v) clears exactly the bits of E in v: `v & !E` is the same word (the form of the published recurrence)
+            def not_e(y):
+                y = strip(y)
+                return y[0] == "un" and y[1] == "Not" and is_e(y[2])
+            return _comm(x, "BitAnd", is_v, not_e)
+        ok = _comm(u, "BitOr", is_add, lambda x: is_sub(x) or is_clear(x))
+        why = "v' = %s" % re.sub(r"internals::compare::position_array::BlockHashPositionArrayData::|core::num::<impl u64>::|<core::slice::Iter<'a, T> as core::iter::Iterator>::", "", canon(u))[:260]
+        break
+    ctx.ob(R, "edit_distance_internal step: v' = (v +w (E & v)) | (v -w (E & v)) [or | (v & !E), the same word], E = mask of the current symbol of `other`", ok, why, f.loc())
+    # ---- substring scan
+    g = prog.fn("BlockHashPositionArrayImplInternal::has_common_substring_internal")
+    ctx.visit(g)
+    sy = Sym(g)
+    MIN = r"internals::hash::block::block_hash::MIN_LCS_FOR_COMPARISON=7"
+    byname = {}
+    for l, ds in g.defs.items():
+        vals = []
+        for (b, _i, k, x) in ds:
+            vals.append((b, re.sub(r"::<[^()\[\]]*>\(", "(", canon(strip(sy.rvalue(x)))) if k == "rv" else "call"))
+        byname[l] = vals
+    # the position variable: three definitions (start, +1, -MIN)
+    pos = [l for l, vs in byname.items() if g.locals[l]["ty"] == "usize" and len(vs) == 3]
+    ok = False
+    why = "position variable not found (usize with start / +1 / -MIN_LCS definitions): %s" % {g.locals[l]["name"]: [v for _, v in vs] for l, vs in byname.items() if len(vs) > 1}
+    if len(pos) == 1:
+        l = pos[0]
+        me = "local:%s_%d" % (g.locals[l]["name"] or "", l)
+        vs = byname[l]
+        want = {"Sub(core::slice::<impl [T]>::len(param:other),%s)" % MIN: "start", "Add(%s,1)" % me: "inc", "Sub(%s,%s)" % (me, MIN): "skip"}
+        roles = {want.get(v): b for b, v in vs}
+        ok = set(roles) == {"start", "inc", "skip"}
+        why = "position steps %s" % [v for _, v in vs]
+        if ok:
+            mask = "internals::compare::position_array::BlockHashPositionArrayData::representation(param:self)[(param:other[%s] as usize)]" % me
+            dd = [ll for ll, vs2 in byname.items() if g.locals[ll]["ty"] == "u64" and len(vs2) == 2]
+            ok = False
+            why += "; no carried u64 word with two definitions"
+            for d in dd:
+                dme = "local:%s_%d" % (g.locals[d]["name"] or "", d)
+                vs2 = byname[d]
+                init = [b for b, v in vs2 if v == mask]
+                step = [b for b, v in vs2 if v in ("BitAnd(Shl(%s,1),%s)" % (dme, mask), "BitAnd(%s,Shl(%s,1))" % (mask, dme))]
+                if len(init) == 1 and len(step) == 1:
+                    # the step reads other[l] after l was advanced: the +1 block dominates the step block, and no other definition of l
+                    # lies between them
+                    inc_b, step_b = roles["inc"], step[0]
+                    after = g.dominates(inc_b, step_b)
+                    # window end: l + (MIN - 1), defined in the block that (re)loads d
+                    ends = [v for ll, vs3 in byname.items() for b, v in vs3 if v in ("Add(%s,Sub(%s,1))" % (me, MIN), "Add(%s,6)" % me, "Add(Sub(%s,1),%s)" % (MIN, me))]
+                    ok = after and len(ends) == 1
+                    why = "d: init mask[other[l]], step (d << 1) & mask[other[l]] %s the `l + 1` of the same round; window end %s" % ("after" if after else "NOT dominated by", ends)
+                    break
+                why += "; %s: %s" % (g.locals[d]["name"], [v[:90] for _, v in vs2])
+    ctx.ob(R, "has_common_substring_internal steps: l = len(other) - MIN_LCS, l + 1, l - MIN_LCS; d = mask[other[l]], d' = (d << 1) & mask[other[l]] after the advance; window end l + (MIN_LCS - 1)", ok, why[:600], g.loc())
